@@ -95,40 +95,15 @@ Proof.
   rewrite E1, E2, (IH Hds). f_equal. f_equal. apply beqb_eq. exact (implb_true _ _ (digit_of_val d) Hd).
 Qed.
 
-Definition Nseq (n : nat) : list N := map N.of_nat (seq 0 n).
-Lemma Nseq_In n i : (i < N.of_nat n)%N -> In i (Nseq n).
-Proof. intros H. unfold Nseq. apply in_map_iff. exists (N.to_nat i). split; [apply N2Nat.id|]. apply in_seq. lia. Qed.
-
-Lemma N_to_str_4digits :
-  forallb (fun i => forallb (fun j => let y := (1000 + 100 * i + j)%N in streqb (N_to_str y) (padn 4 y))
-                            (Nseq 100)) (Nseq 90) = true.
-Proof. vm_compute. reflexivity. Qed.
-
-Lemma year_str y : (1000 <= y <= 9999)%N -> N_to_str y = padn 4 y.
+Lemma year_roundtrip a b c d : dig2 a b && dig2 c d = true ->
+  padn 4 (num4 a b c d) = [a; b; c; d].
 Proof.
-  intros H. pose proof N_to_str_4digits as F. rewrite forallb_forall in F.
-  specialize (F ((y - 1000) / 100)%N).
-  assert (Hi : ((y - 1000) / 100 < 90)%N) by (apply N.div_lt_upper_bound; lia).
-  specialize (F (Nseq_In 90 _ Hi)). rewrite forallb_forall in F.
-  specialize (F ((y - 1000) mod 100)%N).
-  assert (Hj : ((y - 1000) mod 100 < 100)%N) by (apply N.mod_lt; lia).
-  specialize (F (Nseq_In 100 _ Hj)). cbv zeta in F.
-  assert (E : (1000 + 100 * ((y - 1000) / 100) + (y - 1000) mod 100 = y)%N).
-  { pose proof (N.div_mod (y - 1000) 100). lia. }
-  rewrite E in F. now apply streqb_eq.
-Qed.
-
-Lemma year_roundtrip a b c d : dig2 a b && dig2 c d = true -> is_c c_0 a = false ->
-  N_to_str (num4 a b c d) = [a; b; c; d].
-Proof.
-  intros H H0. pose proof (num4_le _ _ _ _ H) as L.
+  intros H.
   assert (Hd : all_dig [a; b; c; d] = true).
-  { unfold dig2 in H. cbn. now rewrite andb_true_r, andb_assoc. }
-  assert (G : (1000 <= num4 a b c d)%N).
-  { apply andb_prop in H. destruct H as [H1 _]. unfold dig2 in H1. apply andb_prop in H1. destruct H1 as [Ha _].
-    assert (is_digit a && negb (is_c c_0 a) = true) as Hx by (rewrite Ha, H0; reflexivity).
-    pose proof (implb_true _ _ (dv_ge1 a) Hx) as L1. apply N.leb_le in L1. unfold num4, num2. lia. }
-  rewrite year_str by lia. rewrite <- (padn_digits _ Hd). f_equal.
+  { apply andb_prop in H. destruct H as [H1 H2]. unfold dig2 in H1, H2.
+    apply andb_prop in H1. destruct H1 as [Ha Hb]. apply andb_prop in H2. destruct H2 as [Hc Hd].
+    cbn [all_dig forallb]. now rewrite Ha, Hb, Hc, Hd. }
+  rewrite <- (padn_digits _ Hd). cbn [length]. f_equal.
   unfold digits_val, num4, num2. cbn [fold_left]. lia.
 Qed.
 
@@ -177,7 +152,7 @@ Proof. unfold dtv_valid, dtv_date. cbn. now rewrite !andb_true_r. Qed.
 Lemma impl_DT_4 a b c d :
   impl_DT [a; b; c; d] =
   if matched re_Y [a; b; c; d] && dtv_valid (dtv_date (txt_int [a; b; c; d]) 1 1)
-  then Ok (N_to_str (txt_int [a; b; c; d])) else Err PyValueError.
+  then Ok (padn 4 (txt_int [a; b; c; d])) else Err PyValueError.
 Proof.
   unfold impl_DT, get_date_info, date_format. cbn [length Nat.eqb bind].
   rewrite strptime_exact by reflexivity.
@@ -191,7 +166,7 @@ Lemma impl_DT_6 a b c d m1 m2 :
   impl_DT [a; b; c; d; m1; m2] =
   if matched re_Y [a; b; c; d] && matched re_m [m1; m2] &&
      dtv_valid (dtv_date (txt_int [a; b; c; d]) (txt_int [m1; m2]) 1)
-  then Ok (N_to_str (txt_int [a; b; c; d]) ++ padn 2 (txt_int [m1; m2])) else Err PyValueError.
+  then Ok (padn 4 (txt_int [a; b; c; d]) ++ padn 2 (txt_int [m1; m2])) else Err PyValueError.
 Proof.
   unfold impl_DT, get_date_info, date_format. cbn [length Nat.eqb bind].
   rewrite strptime_exact by reflexivity.
@@ -206,7 +181,7 @@ Lemma impl_DT_8 a b c d m1 m2 d1 d2 :
   impl_DT [a; b; c; d; m1; m2; d1; d2] =
   if matched re_Y [a; b; c; d] && matched re_m [m1; m2] && matched re_d [d1; d2] &&
      dtv_valid (dtv_date (txt_int [a; b; c; d]) (txt_int [m1; m2]) (txt_int [d1; d2]))
-  then Ok (N_to_str (txt_int [a; b; c; d]) ++ padn 2 (txt_int [m1; m2]) ++ padn 2 (txt_int [d1; d2]))
+  then Ok (padn 4 (txt_int [a; b; c; d]) ++ padn 2 (txt_int [m1; m2]) ++ padn 2 (txt_int [d1; d2]))
   else Err PyValueError.
 Proof.
   unfold impl_DT, get_date_info, date_format. cbn [length Nat.eqb bind].
@@ -278,22 +253,22 @@ Proof.
       * rewrite Esp. cbn [andb orb]. rewrite ?andb_false_r. reflexivity.
 Qed.
 
-Theorem roundtrip_DT s e : impl_DT s = Ok e -> spec_DT s = true -> year_ge_1000 s = true -> e = s.
+Theorem roundtrip_DT s e : impl_DT s = Ok e -> spec_DT s = true -> e = s.
 Proof.
-  unfold spec_DT. intros Hi Hs Hy.
+  unfold spec_DT. intros Hi Hs.
   destruct s as [|a [|b [|c [|d [|m1 [|m2 [|d1 [|d2 [|x r]]]]]]]]];
     try (cbn in Hs; rewrite ?andb_false_r in Hs; discriminate).
-  - rewrite impl_DT_4 in Hi. cbn in Hs, Hy. boolprop.
+  - rewrite impl_DT_4 in Hi. cbn in Hs. boolprop.
     assert (EY : dig2 a b && dig2 c d = true) by (apply andb_true_intro; auto).
     destruct (_ && _) in Hi; [|discriminate]. cbv iota in Hi. apply Ok_inj in Hi; subst e.
     rewrite (txt_int4 _ _ _ _ EY). now apply year_roundtrip.
-  - rewrite impl_DT_6 in Hi. cbn in Hs, Hy. boolprop.
+  - rewrite impl_DT_6 in Hi. cbn in Hs. boolprop.
     assert (EY : dig2 a b && dig2 c d = true) by (apply andb_true_intro; auto).
     destruct (_ && _) in Hi; [|discriminate]. cbv iota in Hi. apply Ok_inj in Hi; subst e.
     match goal with H : in_range2 1 12 m1 m2 = true |- _ => destruct (in_range2_inv _ _ _ _ H) as [Dm _] end.
     rewrite (txt_int4 _ _ _ _ EY), (txt_int2 _ _ Dm), year_roundtrip by auto.
     rewrite (streqb_eq _ _ (implb_true _ _ (pad2 m1 m2) Dm)). reflexivity.
-  - rewrite impl_DT_8 in Hi. cbn in Hs, Hy. boolprop.
+  - rewrite impl_DT_8 in Hi. cbn in Hs. boolprop.
     assert (EY : dig2 a b && dig2 c d = true) by (apply andb_true_intro; auto).
     destruct (_ && _) in Hi; [|discriminate]. cbv iota in Hi. apply Ok_inj in Hi; subst e.
     match goal with H : in_range2 1 12 m1 m2 = true |- _ => destruct (in_range2_inv _ _ _ _ H) as [Dm _] end.
@@ -304,12 +279,11 @@ Proof.
 Qed.
 
 (* what the blank-padded day re-encodes to *)
-Theorem space_day_reencodes s e : impl_DT s = Ok e -> dt_space_day s = true -> year_ge_1000 s = true ->
-  e = fix_space_day s.
+Theorem space_day_reencodes s e : impl_DT s = Ok e -> dt_space_day s = true -> e = fix_space_day s.
 Proof.
-  intros Hi Hs Hy.
+  intros Hi Hs.
   destruct s as [|a [|b [|c [|d [|m1 [|m2 [|d1 [|d2 [|x r]]]]]]]]]; try discriminate.
-  rewrite impl_DT_8 in Hi. cbn in Hs, Hy. boolprop.
+  rewrite impl_DT_8 in Hi. cbn in Hs. boolprop.
   assert (EY : dig2 a b && dig2 c d = true) by (apply andb_true_intro; auto).
   destruct (_ && _) in Hi; [|discriminate]. cbv iota in Hi. apply Ok_inj in Hi; subst e.
   match goal with H : in_range2 1 12 m1 m2 = true |- _ => destruct (in_range2_inv _ _ _ _ H) as [Dm _] end.
@@ -1261,37 +1235,31 @@ Proof. intros H. rewrite dtm_body_ok_alt. unfold dtm_body_impl. now rewrite H. Q
 Lemma spec_datetime_chars b : spec_datetime b = true -> forallb body_char b = true.
 Proof. intros H. now apply dtm_body_chars, spec_datetime_ok. Qed.
 
-Lemma date_enc_id d : spec_date d = true -> year_ge_1000 d = true -> date_enc d = d.
+Lemma date_enc_id d : spec_date d = true -> date_enc d = d.
 Proof.
-  intros Hs Hy. unfold date_enc. destruct (impl_DT d) as [e|x] eqn:E.
+  intros Hs. unfold date_enc. destruct (impl_DT d) as [e|x] eqn:E.
   - now apply (roundtrip_DT d e).
   - pose proof (accept_DT_exact d) as A. rewrite E in A. unfold spec_DT in A. rewrite Hs in A. discriminate.
 Qed.
 
-Lemma dtm_enc_id b : spec_datetime b = true -> year_ge_1000 b = true -> dtm_enc b = b.
+Lemma dtm_enc_id b : spec_datetime b = true -> dtm_enc b = b.
 Proof.
-  intros Hs Hy. rewrite spec_datetime_alt in Hs. apply andb_prop in Hs. destruct Hs as [Hd _].
-  unfold dtm_enc. rewrite date_enc_id; auto.
-  - unfold take, drop. apply firstn_skipn.
-  - destruct b as [|c r]; [discriminate|]. exact Hy.
+  intros Hs. rewrite spec_datetime_alt in Hs. apply andb_prop in Hs. destruct Hs as [Hd _].
+  unfold dtm_enc. rewrite date_enc_id by auto. unfold take, drop. apply firstn_skipn.
 Qed.
 
-Lemma year_prefix p o : p <> [] -> year_ge_1000 (p ++ o) = year_ge_1000 p.
-Proof. destruct p; [congruence|reflexivity]. Qed.
-
-Theorem roundtrip_DTM s e : impl_DTM s = Ok e -> spec_DTM s = true -> year_ge_1000 s = true -> e = s.
+Theorem roundtrip_DTM s e : impl_DTM s = Ok e -> spec_DTM s = true -> e = s.
 Proof.
-  rewrite impl_DTM_off. intros Hi Hs Hy.
+  rewrite impl_DTM_off. intros Hi Hs.
   destruct (offset_decompose dtm_body_ok _ dtm_enc dtm_body_chars dtm_run s e Hi)
     as [b [o [Hb [He [[Hn [-> ->]]|[Ho [Hbo [Hm Hsp]]]]]]]].
   - unfold spec_DTM in Hs. rewrite (with_offset_none spec_datetime s Hn) in Hs.
-    rewrite He, (dtm_enc_id s Hs Hy). apply app_nil_r.
+    rewrite He, (dtm_enc_id s Hs). apply app_nil_r.
   - destruct (off_match_shape o Hm) as [sg [r [Eo [_ [_ Lr]]]]].
     assert (Lo : length o = 5) by (rewrite Eo; cbn [length]; lia).
     set (p := take (length s - 5) s) in *.
     unfold spec_DTM in Hs. rewrite Hsp, (with_offset_off spec_datetime spec_datetime_chars p o Hm Lo) in Hs.
     assert (b = p) as ->.
     { rewrite Hbo, Hsp. now apply (B_prefix_clean spec_datetime spec_datetime_chars). }
-    assert (Hp : p <> []) by (intros E; rewrite E in Hs; discriminate).
-    rewrite Hsp, (year_prefix p o Hp) in Hy. rewrite He, (dtm_enc_id p Hs Hy). symmetry. exact Hsp.
+    rewrite He, (dtm_enc_id p Hs). symmetry. exact Hsp.
 Qed.
